@@ -4,7 +4,7 @@
    integers used by the correspondence runs).  [wf r c M] = M is an r x c list matrix. *)
 From Coq Require Import List Bool Arith Lia Ring ZArith.
 From QV Require Import Base.Mat Base.Zi C17.Alg C17.Model C17.Spec C17.ZiInst
-  C17.ProofsIdx C17.ProofsVec C17.ProofsPerm C17.ProofsPauli C17.ProofsStine C17.ProofsPath C17.Historical.
+  C17.ProofsIdx C17.ProofsVec C17.ProofsPerm C17.ProofsPauli C17.ProofsStine C17.Historical.
 Import ListNotations.
 
 (* ---- vectorisation orders are bijections (every dimension; system order: every n) *)
@@ -79,6 +79,30 @@ Section Generic.
     forall x y, x < odim o * odim o -> y < odim o * odim o ->
     mget K (kraus_to_choi K cj o (choi_to_kraus_from_eig K o evs)) x y = mget K M x y.
   Proof. intros. now apply (choi_to_kraus_contract K cj SR cj0 cj_mul). Qed.
+
+  (* rank-deficient case: eigh returns all d^2 pairs and the code drops those under the threshold; if the
+     dropped eigenvalues are exactly 0 (idealised threshold) the kept operators still reproduce M ... *)
+  Theorem choi_to_kraus_rank_deficient : forall o M keep (evs : list (T * vec T)),
+    (forall sv, In sv evs -> cj (fst sv) = fst sv) ->
+    (forall sv, In sv evs -> keep sv = false -> mul K (fst sv) (fst sv) = zero K) ->
+    (forall x y, x < odim o * odim o -> y < odim o * odim o ->
+       mget K M x y = lsum K (map (fun sv => mul K (mul K (fst sv) (fst sv))
+                                   (mul K (vget K (snd sv) x) (cj (vget K (snd sv) y)))) evs)) ->
+    forall x y, x < odim o * odim o -> y < odim o * odim o ->
+    mget K (kraus_to_choi K cj o (choi_to_kraus_thresholded K o keep evs)) x y = mget K M x y.
+  Proof. intros. now apply (ProofsStine.choi_to_kraus_rank_deficient K cj SR cj0 cj_mul). Qed.
+
+  (* ... and Ks -> kraus_to_choi -> choi_to_kraus gives a Kraus set of the SAME channel (any rank of Ks) *)
+  Theorem kraus_choi_kraus_roundtrip : forall o Ks keep (evs : list (T * vec T)) rho m n,
+    (forall sv, In sv evs -> cj (fst sv) = fst sv) ->
+    (forall sv, In sv evs -> keep sv = false -> mul K (fst sv) (fst sv) = zero K) ->
+    (forall x y, x < odim o * odim o -> y < odim o * odim o ->
+       mget K (kraus_to_choi K cj o Ks) x y
+       = lsum K (map (fun sv => mul K (mul K (fst sv) (fst sv))
+                          (mul K (vget K (snd sv) x) (cj (vget K (snd sv) y)))) evs)) ->
+    m < odim o -> n < odim o ->
+    kraus_entry K cj (odim o) (choi_to_kraus_thresholded K o keep evs) rho m n = kraus_entry K cj (odim o) Ks rho m n.
+  Proof. intros. now apply (ProofsStine.kraus_choi_kraus_roundtrip K cj SR cj0 cj_mul). Qed.
 
   (* channel networks: the tensor of QuantumChannel.from_operator(choi, inverse=True) denotes the channel *)
   Theorem qchannel_semantics_ok : forall d Ks rho o o', o < d -> o' < d ->
@@ -166,6 +190,54 @@ Section Generic.
       intros. destruct po_perm as [P1 [P2 P3]].
       now apply (ProofsPauli.from_pauli_to_pauli K cj SR cj0 cj1 cj_mul cj_cj ps po P1 P2 P3 ps_complete).
     Qed.
+
+    (* pauli_acts: the Pauli-Liouville matrix U L U^dagger, read in the Pauli basis, acts on rho as L acts
+       on |rho), up to the factor (2^n)^2 of the un-normalised basis -- every n, ordering, order *)
+    Theorem pauli_acts : forall o n L rho i j, odim o = 2 ^ n -> wf (4 ^ n) (4 ^ n) L -> i < 2 ^ n -> j < 2 ^ n ->
+      mget K (pauli_action K cj ps po n (liouville_to_pauli K cj ps po o n L) rho) i j
+      = mul K (mul K (twopow K n) (twopow K n)) (mget K (liouville_action K o L rho) i j).
+    Proof.
+      intros. destruct po_perm as [P1 [P2 P3]].
+      now apply (ProofsPauli.pauli_acts K cj SR cj0 cj1 cj_mul cj_cj ps po P1 P2 P3 ps_complete).
+    Qed.
+
+    (* hence kraus_to_pauli(Ks, order) represents rho -> sum K rho K^dagger (row and column) *)
+    Theorem pauli_acts_channel : forall col n Ks rho i j, i < 2 ^ n -> j < 2 ^ n ->
+      mget K (pauli_action K cj ps po n (kraus_to_pauli K cj ps po col n Ks) rho) i j
+      = mul K (mul K (twopow K n) (twopow K n)) (kraus_entry K cj (2 ^ n) Ks rho i j).
+    Proof.
+      intros col n Ks rho i j Hi Hj.
+      change (kraus_to_pauli K cj ps po col n Ks)
+        with (liouville_to_pauli K cj ps po (ord col (2 ^ n)) n (kraus_to_liouville K cj col (2 ^ n) Ks)).
+      rewrite pauli_acts; [| destruct col; reflexivity | | exact Hi | exact Hj].
+      - now rewrite (ProofsVec.liouville_acts_entry K cj SR cj0 col (2 ^ n) Ks rho i j Hi Hj).
+      - rewrite pow4_sq. unfold kraus_to_liouville, choi_to_liouville. apply (ProofsVec.wf_reshuffle K).
+    Qed.
+
+    (* chi_ok: the chi matrix of kraus_to_chi acts as sum_ab chi_ab P_a rho P_b^dagger = 4^n sum K rho K^dagger,
+       every n, ordering, and all three vectorisation orders *)
+    Theorem chi_ok : forall o n Ks rho i j, odim o = 2 ^ n -> wf (2 ^ n) (2 ^ n) rho -> i < 2 ^ n -> j < 2 ^ n ->
+      mget K (chi_action K cj ps po n (kraus_to_chi K cj ps po o n Ks) rho) i j
+      = mul K (mul K (twopow K n) (twopow K n)) (kraus_entry K cj (2 ^ n) Ks rho i j).
+    Proof.
+      intros. destruct po_perm as [P1 [P2 P3]].
+      now apply (ProofsPauli.chi_ok K cj SR cj0 cj1 cj_add cj_mul ps po P1 P2 P3 ps_complete).
+    Qed.
+
+    (* path independence, every n: along ANY path through the table of conversion functions
+       {choi, liouville, pauli, chi}^2 (row / column order, un-normalised basis), starting from the
+       representation kraus_to_<a>(Ks), the result is kraus_to_<end>(Ks) scaled entrywise by
+       (product of factors)^2, one factor 2^n for every step that leaves the Pauli basis *)
+    Theorem path_independence : forall col n Ks a path,
+      run_path K cj ps po col n a path (from_kraus_rep K cj ps po col n a Ks)
+      = sc2 K n (path_fac K n a path) (from_kraus_rep K cj ps po col n (path_end a path) Ks).
+    Proof.
+      intros col n Ks a path. destruct po_perm as [P1 [P2 P3]].
+      pose proof (ProofsPauli.path_independence K cj SR cj0 cj1 cj_add cj_mul cj_cj ps po P1 P2 P3 ps_complete
+                    col n Ks path a (one K)) as H.
+      rewrite (sc2_one K SR n _ (wf_from K cj SR cj0 cj_add cj_mul cj_cj ps po P2 col n Ks a)) in H.
+      rewrite H. f_equal. apply (ARmul_1_l (SRth_ARth (Eqsth T) SR)).
+    Qed.
   End PauliBasis.
 End Generic.
 Print Assumptions vec_unvec.
@@ -181,6 +253,12 @@ Print Assumptions basis_change_product.
 Print Assumptions to_pauli_from_pauli.
 Print Assumptions pauli_basis_complete.
 Print Assumptions from_pauli_to_pauli.
+Print Assumptions pauli_acts.
+Print Assumptions pauli_acts_channel.
+Print Assumptions chi_ok.
+Print Assumptions path_independence.
+Print Assumptions choi_to_kraus_rank_deficient.
+Print Assumptions kraus_choi_kraus_roundtrip.
 Print Assumptions reshuffle_involutive.
 Print Assumptions choi_acts.
 Print Assumptions choi_liouville_iso.
@@ -217,6 +295,14 @@ Proof.
   intros po o n L a b Hpo Ho HL Ha Hb.
   exact (from_pauli_to_pauli Ziops zi_conj Zi_SR zi_conj_0 zi_conj_mul zi_conj_invol zi_conj_1 zP po Hpo zP_complete o n L a b Ho HL Ha Hb).
 Qed.
+Example path_independence_Zi : forall po col n Ks a path,
+  NoDup po /\ length po = 4 /\ (forall x, In x po -> x < 4) ->
+  run_path Ziops zi_conj zP po col n a path (from_kraus_rep Ziops zi_conj zP po col n a Ks)
+  = sc2 Ziops n (path_fac Ziops n a path) (from_kraus_rep Ziops zi_conj zP po col n (path_end a path) Ks).
+Proof.
+  intros po col n Ks a path Hpo.
+  exact (path_independence Ziops zi_conj Zi_SR zi_conj_0 zi_conj_add zi_conj_mul zi_conj_invol zi_conj_1 zP po Hpo zP_complete col n Ks a path).
+Qed.
 Example pauli_basis_orthogonal_Zi : forall po n a b,
   NoDup po /\ length po = 4 /\ (forall x, In x po -> x < 4) -> a < 4 ^ n -> b < 4 ^ n ->
   hs Ziops zi_conj (2 ^ n) (z_pauli_mat po n a) (z_pauli_mat po n b)
@@ -226,10 +312,5 @@ Proof.
   exact (pauli_basis_orthogonal Ziops zi_conj Zi_SR zi_conj_mul zi_conj_1 zP po zP_orth Hpo n a b Ha Hb).
 Qed.
 
-(* ---- path independence over the table of conversion functions: BOUNDED exhaustive instance check
-   (n = 1 rank 2: every ordered pair and every triple of {Choi, Liouville, Pauli-Liouville, chi}, all 24
-   Pauli orderings; n = 2 rank 1 on permuted qubits: every ordered pair, two orderings; row and column) *)
-Theorem path_independence_bounded : all_paths_ok = true /\ length pauli_orders = 24.
-Proof. split; [exact all_paths_ok_true|reflexivity]. Qed.
-Print Assumptions path_independence_bounded.
+
 
